@@ -417,5 +417,34 @@ theorem next_binds_argument (self : RawParameters) (definition : Str) (k v : Str
     | none => exact pmap_get_extend_last _ _ _ k v hkeys
     | some r => exact pmap_get_extend_last _ _ _ k r hkeys
 
+
+theorem pmap_get_erase_same (m : PMap) (k : Str) : (m.erase k).get? k = none := by
+  simp only [PMap.erase, PMap.get?]
+  cases h : (m.filter (·.1 != k)).find? (·.1 == k) with
+  | none => rfl
+  | some e =>
+    have h1 := List.find?_some h
+    have h2 := (List.mem_filter.mp (List.mem_of_find?_eq_some h)).2
+    simp at h1 h2
+    exact absurd h1 h2
+
+/-- **the modifiers of an invocation stay with the invocation**: `inv`, `omit_fwd` and `omit_inv`, whether
+written on the invocation or inherited from an enclosing one, are not among the parameters the body
+of the macro is instantiated with (so they cannot be picked up by the steps of the body, which all
+look for these three keys) -/
+theorem next_strips_modifiers (self : RawParameters) (definition : Str)
+    (hres : isResourceName definition = true)
+    (hfresh : ((splitIntoParameters definition).contains nameKey &&
+      self.globals.get? nameKey == (splitIntoParameters definition).get? nameKey) = false) :
+    (self.next definition).globals.get? (S "inv") = none ∧
+    (self.next definition).globals.get? (S "omit_fwd") = none ∧
+    (self.next definition).globals.get? (S "omit_inv") = none := by
+  unfold RawParameters.next
+  simp only [hres, if_true, hfresh, Bool.false_eq_true, if_false]
+  refine ⟨?_, ?_, ?_⟩
+  · rw [pmap_get_erase_ne _ _ _ (by decide), pmap_get_erase_ne _ _ _ (by decide), pmap_get_erase_same]
+  · rw [pmap_get_erase_ne _ _ _ (by decide), pmap_get_erase_same]
+  · rw [pmap_get_erase_same]
+
 end C04
 end Geodesy
